@@ -17,6 +17,8 @@ class P(vlib.Prop):
                      "^TestVerifC06(Logs|Metrics|Traces|Profiles)$", "fanoutconsumer"),
         vlib.Harness("graph", "service", "./internal/graph/", {"zz_verif_c06_test.go": "C06/graph_test.go"},
                      "^TestVerifC06Graph$", "graph"),
+        vlib.Harness("router", "connector", ".", {"zz_verif_c06_test.go": "C06/router_test.go"},
+                     "^TestVerifC06Router$", "connector"),
     ]
     rule = ("fanout (one test function per signal file: logs, metrics, traces, profiles): EVERY capability vector of "
             "length 0..5 (quick) / 0..7 (thorough) x {mutable, read-only input}, plus random vectors of length 6..12; "
@@ -25,9 +27,13 @@ class P(vlib.Prop):
             "the call or from a goroutine, between any two consumer calls and after ConsumeX returned). "
             "graph: real graphs built by service/internal/graph.Build from generated pipeline trees (processor and "
             "exporter capability vectors, same-signal connectors feeding 1..3 further pipelines), advertised "
-            "MutatesData of every pipeline compared with the model. "
+            "MutatesData of every pipeline and of the consumer handed to the receiver compared with the model; one payload "
+            "pushed through each built graph with marker-writing mutators (direct oracle). "
+            "router: connector.NewXRouter over 1..3 pipelines (every capability vector, every selection of length 1..3, "
+            "repetitions included) and random larger ones: capability of Consumer(ids...) and of the router, invocation order. "
             "A fan-out case is non-trivial when it has >= 2 consumers or a mutating one; a graph case when the "
-            "pipeline has a processor or >= 2 exporters; distinct = distinct case terms.")
+            "tree has >= 2 components; a router case when >= 2 pipelines are selected or the selection is all-mutating; "
+            "distinct = distinct case terms.")
     trusted_base = [
         "Coq 8.16.1 kernel + vm_compute (coqc); no axioms (Print Assumptions: closed under the global context)",
         "hand-written model coq/C06/Model.v of NewX / Capabilities / ConsumeX, tied to each of the four Go files by its own correspondence function",
